@@ -72,7 +72,7 @@ Print Assumptions completes_before_deadline.
    contiguous scan starts its evaluation from the state of a fresh scanner
    with the same options (C04's invariant) *)
 Theorem reset_after_timeout_clean : forall R h i0 e i,
-  forallb wf_op (h ++ [OScan i0 e TimedOut]) = true -> hist_ok fresh (h ++ [OScan i0 e TimedOut]) = true ->
+  forallb wf_op (h ++ [OScan i0 e TimedOut]) = true ->
   tl_guard R (spec_persist (h ++ [OScan i0 e TimedOut])) ->
   forall c, visible R false c = true ->
     probe_contig R i (run R (h ++ [OScan i0 e TimedOut]) fresh) c
@@ -80,12 +80,11 @@ Theorem reset_after_timeout_clean : forall R h i0 e i,
 Proof. exact StateProofs.reset_after_timeout_clean. Qed.
 Print Assumptions reset_after_timeout_clean.
 
-(* block mode: the same for every cell except the snippets (which a failed
-   finish() keeps: StateProofs.leak_snippets, recorded finding) and the cells
-   that leak into block mode anyway (C04) *)
+(* block mode: after a finish() that timed out, every visible cell - the
+   snippets included - except the per-thread caches that are not scan-scoped (C04) *)
 Theorem block_reset_after_timeout_clean : forall R h e i,
   let h' := h ++ [OBlockFinish e TimedOut] in
-  forallb wf_op h' = true -> hist_ok fresh h' = true ->
+  forallb wf_op h' = true ->
   (spec_persist h' CKind =? 0) = false ->
   forall c, visible R true c = true -> block_leak c = false ->
     probe_block R i (run R h' fresh) c = probe_block R i (spec_persist h') c.
